@@ -274,7 +274,7 @@ def run(ctx):
 
     # ---- model vs implementation
     t0 = time.time()
-    budget = 50000 if ctx.thorough else 2400
+    budget = 50000 if ctx.thorough else 3500
     sample = [p for p in progs if p["kind"].startswith("corpus")]
     rest = [p for p in progs if not p["kind"].startswith("corpus") and not by_id.get(p["id"], {}).get("panic")]
     random.Random(ctx.seed * 31 + 7).shuffle(rest)
@@ -343,7 +343,7 @@ def run_replicator_level(ctx, viol):
 
 
 THEOREMS = ["C39_any_join_converges", "C39_any_join_is_join_of_sent", "C39_replicator_store_converges", "C39_gcounter_full_state",
-            "C39_gcounter_delta_partial", "C39_gcounter_delta_wrap_refuted", "C39_orset_full_state_partial",
+            "C39_gcounter_delta_partial", "C39_pncounter_delta_partial", "C39_gcounter_delta_wrap_refuted", "C39_orset_full_state_partial",
             "C39_orset_delta_refuted", "C39_orset_delta_add_remove_refuted", "C39_delta_is_full_state", "C39_mvregister_converges",
             "C39_lww_converges", "C39_ormap_order_refuted"]
 
